@@ -81,6 +81,38 @@ func main() {
 		}
 		return
 	}
+	if len(os.Args) > 1 && os.Args[1] == "sig" { // debugging aid: JSON array of statements on stdin -> signatures observed
+		var stmts []string
+		if err := json.NewDecoder(os.Stdin).Decode(&stmts); err != nil {
+			fmt.Println("bad input:", err)
+			os.Exit(9)
+		}
+		core.StmtTimeout = 20 * time.Second
+		e := core.NewEng("d")
+		buildFixture(e)
+		s := e.NewSess()
+		sigs := []string{}
+		for _, q := range stmts {
+			r := s.Exec(q)
+			switch {
+			case r.TimedOut:
+				sigs = append(sigs, "hang")
+				b, _ := json.Marshal(sigs)
+				fmt.Println(string(b))
+				os.Exit(0)
+			case r.Panic != nil:
+				sigs = append(sigs, panicSig(r.Panic))
+			case r.Err != nil:
+				var cr caseResult
+				if ev := canary(s, &cr); ev != nil {
+					sigs = append(sigs, ev.Sig)
+				}
+			}
+		}
+		b, _ := json.Marshal(sigs)
+		fmt.Println(string(b))
+		return
+	}
 	if ch := g12lib.ChildFromEnv(); ch != nil {
 		workerMain(ch)
 		return
